@@ -382,7 +382,11 @@ fn canary_byte(off: usize) -> u8 {
 
 impl State {
     fn flag(&mut self, kind: FlagKind, b: Option<&Block>, off: u32, f: Option<Layout>) {
-        if kind == FlagKind::HarnessLimit && off >= 2 {
+        // (After an injected failure the process may be on std's abort path,
+        // whose diagnostics — a backtrace when RUST_BACKTRACE is set — allocate
+        // without bound while the scope is still active: then a plain null is
+        // the right answer and the documented abort follows.)
+        if kind == FlagKind::HarnessLimit && off >= 2 && self.counters.failed_allocs == 0 {
             // The simulated heap itself is exhausted (arena, block table): this
             // says nothing about the library. Never let it look like an
             // allocation failure the library has to cope with.
